@@ -267,7 +267,13 @@ def lin_eval(d, pts, field, a, b, e1, e2, use_mag):
     scale = max(np.abs(a * F1).max(), np.abs(b * F2).max(), np.abs(F12).max())
     if not np.isfinite(scale) or scale == 0:
         return 0.0 if np.array_equal(F12, a * F1 + b * F2) or not np.isfinite(scale) else float("inf")
-    return float(np.abs(F12 - (a * F1 + b * F2)).max() / scale)
+    dev = float(np.abs(F12 - (a * F1 + b * F2)).max() / scale)
+    # vector sum of excitations as superposition: two copies of the body, one call, summed
+    o1, o2 = l2b.load_obj(d), l2b.load_obj(d)
+    setattr(o1, attr, (a * e1).tolist() if e1.ndim else float(a * e1))
+    setattr(o2, attr, (b * e2).tolist() if e2.ndim else float(b * e2))
+    Fs = f([o1, o2], pts, squeeze=False, sumup=True)
+    return max(dev, float(np.abs(F12 - Fs).max() / scale))
 
 
 def lin_search(ctx, n_per_class):
@@ -283,8 +289,8 @@ def lin_search(ctx, n_per_class):
             # observers anywhere, also inside the magnet (placed through the pose at path index 0)
             pts = []
             for _ in range(3):
-                if rng.random() < 0.35:
-                    loc = np.array(l2b.rvec(rng, -0.3, 0.3))
+                loc = l2b.inside_point(rng, s, kind) if rng.random() < 0.4 else None
+                if loc is not None:
                     pts.append((s._orientation[0].apply(loc) + s._position[0]).tolist())
                 else:
                     pts.append(l2b.rvec(rng, -4, 4))
